@@ -624,7 +624,7 @@ func (w *exWorld) reachProbes() {
 
 func exclusiveRun(prop string) {
 	nKeys := simrt.DrawRange(1, 3)
-	nCallers := simrt.DrawRange(2, 8)
+	nCallers := simrt.DrawRange(2, 8+4*(simrt.Scale()-1))
 	w := &exWorld{
 		prop:    prop,
 		e:       new(bigbuff.Exclusive),
